@@ -56,7 +56,12 @@ fn main() {
             let var = arg(&args, "--variant").unwrap_or_else(|| die("--variant"));
             let par: usize = arg(&args, "--par").and_then(|s| s.parse().ok()).unwrap_or_else(|| die("--par"));
             let out = arg(&args, "--out").unwrap_or_else(|| die("--out"));
-            let c = sim::engine::target_grid_case(&reg, fam, var, par, false, seed, args.iter().any(|a| a == "--compact")).unwrap_or_else(|| die("no such family/variant"));
+            let c = if args.iter().any(|a| a == "--routes") {
+                sim::engine::target_route_case(&reg, fam, var, false, seed)
+            } else {
+                sim::engine::target_grid_case(&reg, fam, var, par, false, seed, args.iter().any(|a| a == "--compact"))
+            }
+            .unwrap_or_else(|| die("no such family/variant"));
             let anchors = Anchors::compute_for(&reg, Some(&[fam]));
             install_quiet_panic_hook();
             let r = execute_mode(&reg, &anchors, &c.cfg, &c.ops, seed, None, &Known::default(), false);
